@@ -20,10 +20,55 @@ def _run(q, rx, init, species, use_delay, vol, seed):
     q.put(df[species].to_numpy().min(axis=0).tolist())
 
 
+def replay_param_rules(spec):
+    """a conversion network A + B <-> C, C -> A + B whose rules assign to parameters only: every mode's rows must stay non-negative
+    integers with A + C and B + C constant, every step an integer combination of the reaction vectors"""
+    import warnings
+    warnings.simplefilter("ignore")
+    import itertools
+    from bioscrape.types import Model
+    from bioscrape.simulator import py_simulate_model
+    from bioscrape.random import py_seed_random
+    rules = []
+    for typ, tgt in spec["rules"]:
+        if typ == "assignment":
+            rules.append(("assignment", {"equation": "%s = 0.05 + 0.01*t + 0.001*volume" % tgt}, "repeated"))
+        elif typ == "assignment-dt":
+            rules.append(("assignment", {"equation": "%s = 0.05 + 0.001*B" % tgt}, "dt"))
+        else:
+            rules.append(("ode", {"equation": "0.01 + 0.001*volume", "target": tgt}, "dt"))
+    bad = []
+    tp = np.linspace(0, 4, 17)
+    for stochastic, delay, safe, vol in itertools.product((True,), (False, True), (False, True), (None, 2.0)):
+        for seed in (1, 2, 3):
+            M = Model(species=["A", "B", "C"], parameters=[("q", 0.3), ("r", 0.2), ("k", 0.1)],
+                      reactions=[(["A", "B"], ["C"], "massaction", {"k": "k"}), (["C"], ["A", "B"], "massaction", {"k": "q"}),
+                                 (["C"], ["A", "B"], "massaction", {"k": "r"})],
+                      rules=rules, initial_condition_dict={"A": 12, "B": 9, "C": 4})
+            py_seed_random(seed)
+            try:
+                df = py_simulate_model(tp, Model=M, stochastic=stochastic, delay=delay, safe=safe, volume=vol)
+            except Exception as e:
+                bad.append("py_simulate_model(delay=%s, safe=%s, volume=%s) raised %s: %s" % (delay, safe, vol, type(e).__name__, e))
+                break
+            X = df[["A", "B", "C"]].to_numpy()
+            if (X < 0).any() or (X != np.round(X)).any():
+                bad.append("delay=%s safe=%s volume=%s seed=%d: non-integer or negative counts, e.g. row %s" % (delay, safe, vol, seed, X[np.argmax((X != np.round(X)).any(axis=1) | (X < 0).any(axis=1))].tolist()))
+            elif (X[:, 0] + X[:, 2] != 16).any() or (X[:, 1] + X[:, 2] != 13).any():
+                bad.append("delay=%s safe=%s volume=%s seed=%d: A + C or B + C not conserved although no rule targets a species" % (delay, safe, vol, seed))
+            if bad:
+                break
+        if bad:
+            break
+    return {"reproduced": bool(bad), "observed": bad[:3], "expected": "rules with parameter targets never write species"}
+
+
 def replay(spec):
     kind = spec.get("kind")
     if kind in ("ssa", "delay", "volume", "delay_volume"):
         return ssa.replay(spec)
+    if kind == "param_rules":
+        return replay_param_rules(spec)
     if kind == "safe_block":
         # the counterexample's stoichiometry with constant positive (non mass-action) rates: the safe interface must give
         # propensity 0 to every reaction whose immediate or total consumption exceeds the state
